@@ -310,7 +310,7 @@ def explore_config(cfg: dict) -> dict:
             res['candidates'].append({'symbolic': desc, 'inputs': inputs, 'replay': rep,
                                       'impl': _pub(impl), 'ref': ref.as_dict()})
         elif witness_rate and rng.random() < witness_rate:
-            inputs = _ieee_witness(ctx, path, cfg, [])
+            inputs = _ieee_witness(ctx, path, cfg, [], soft=True)
             if inputs is not None:
                 rep = replay_concrete(cfg, inputs)
                 res['witness_checked'] += 1
@@ -355,7 +355,7 @@ def _input_terms(cfg: dict):
     return names, cells, s, tol, min_iter, offset
 
 
-def _ieee_witness(ctx: Ctx, path, cfg: dict, extra: list) -> Optional[dict]:
+def _ieee_witness(ctx: Ctx, path, cfg: dict, extra: list, soft: bool = False) -> Optional[dict]:
     """Concrete inputs satisfying the path condition under IEEE-754 arithmetic
     (None if the path is an artefact of the uninterpreted abstraction)."""
     s = z3.Solver()
@@ -372,6 +372,8 @@ def _ieee_witness(ctx: Ctx, path, cfg: dict, extra: list) -> Optional[dict]:
     if r == 'unsat':
         return None
     if r != 'sat':
+        if soft:
+            return None   # a sampled path witness that z3 cannot produce in time is skipped, not a verdict
         raise Inconclusive('IEEE confirmation query returned ' + r)
     m = s.model()
     names, cells, sc, tol, min_iter, offset = _input_terms(cfg)
